@@ -208,11 +208,23 @@ class Ctx:
                 e = (x == y)
                 if hasattr(e, "_claim_terms"):
                     cs.extend(e._claim_terms())
+                elif isinstance(e, (bool, np.bool_)):
+                    if not e:
+                        cs.append(z3.BoolVal(False))
                 else:
                     cs.append(_b(e))
             t = time.time()
-            st, m = self.ex.prove(z3.And(*cs) if cs else z3.BoolVal(True))
-            return self._record(name, st, time.time() - t, model=self._model_inputs(m) if m is not None else None)
+            # element by element: each is one polynomial identity (far easier for nlsat than their conjunction)
+            status, model = "proved", None
+            for c in cs:
+                st, m = self.ex.prove(c)
+                if st == "refuted":
+                    status, model = "refuted", m
+                    break
+                if st == "unknown":
+                    status = "unknown"
+            return self._record(name, status, time.time() - t,
+                                model=self._model_inputs(model) if model is not None else None)
         fa, fb = _to_float_array(a), _to_float_array(b)
         self.observed.append((name, fa))
         if fa.shape != fb.shape:
@@ -586,7 +598,7 @@ def _replay_candidate(scenario, params, cand, res):
         else:
             cand["confirmed"] = False
             cand["replay"] = "real code did not raise (outcome %r)" % (cr.outcome,)
-            res["harness_errors"].append("non-reproducing exception candidate: %s" % cand["detail"])
+            res["harness_errors"].append("non-reproducing exception candidate: %s\n%s" % (cand["detail"], cand.get("tb") or ""))
         return
     st = [c for c in cr.claims if c["name"] == name]
     if isinstance(cr.outcome, tuple) and cr.outcome and cr.outcome[0] == "skip":
